@@ -55,6 +55,9 @@ def dense_fc(scell, rng, asr=True, perm_sym=True, space_group=True):
     nops = 1
     if space_group:
         rots, trans = own_ops(scell)
+        if space_group == "translations":
+            sel = [k for k in range(len(rots)) if np.array_equal(rots[k], np.eye(3, dtype=int))]
+            rots, trans = rots[sel], trans[sel]
         P = perms_for_ops(spos, L, rots, trans)
         fc = group_average_fc(fc, L, rots, P)
         nops = len(rots)
